@@ -9,6 +9,7 @@
 //! (correspondence).  Findings go to the report file; the verdict is taken by
 //! tools/check.py.
 
+mod cancel;
 mod codec;
 mod common;
 mod connlife;
@@ -83,6 +84,7 @@ fn main() {
         "recvcredit" => recvcredit::main(&opts),
         "reasm" => reasm::main(&opts),
         "ids" => ids::main(&opts),
+        "cancel" => cancel::main(&opts),
         "failprop" => failprop::main(&opts),
         "hostile" => hostile::main(&opts),
         "limits" => limits::main(&opts),
